@@ -4,7 +4,7 @@
 
    Events (p, s, c are harness-chosen names of calls / subscriptions / closers):
      reset      persistent blocking
-     pubstart   p m topic payload meta        pubend   p ok
+     pubstart   p m topic payload meta after  pubend   p ok     (after: previous message's call in a multi-message Publish)
      substart   s topic neverack              subend   s ok
      recv       s m payload meta fresh ctxlive derived
      ack s m | nack s m                       (logged before the consumer settles)
@@ -28,8 +28,8 @@ TReset == /\ Is("reset")
 \* taken eagerly together with the start events and the search stays deterministic.
 TPubStart == /\ Is("pubstart")
              /\ IF cfg.persistent /\ closed # "closed"
-                  THEN PublishStartLin(Ev.p, Ev.m, Ev.topic, Ev.payload, Ev.meta) /\ Adv
-                  ELSE PublishStart(Ev.p, Ev.m, Ev.topic, Ev.payload, Ev.meta) /\ Adv
+                  THEN PublishStartLin(Ev.p, Ev.m, Ev.topic, Ev.payload, Ev.meta, Ev.after) /\ Adv
+                  ELSE PublishStart(Ev.p, Ev.m, Ev.topic, Ev.payload, Ev.meta, Ev.after) /\ Adv
 TPubEnd   == Is("pubend") /\ (IF Ev.ok THEN PublishEndOk(Ev.p) ELSE PublishEndErr(Ev.p)) /\ Adv
 TSubStart == /\ Is("substart")
              /\ IF cfg.persistent /\ closed # "closed"
